@@ -6,8 +6,10 @@
 (* and checks that the catalogue (TestCasesOps) is coherent: every family has a relation,   *)
 (* every test case that reaches the end has been judged by the relation its family          *)
 (* documents, names are unique, the families named in the statement of C05 all carry a      *)
-(* content relation.  The dump (one state per (configuration, family, sub-case)) is the     *)
-(* list of expectations the driver executes against the real generators (G).                *)
+(* content relation.  The dump (one state per (configuration, signal range) reached by      *)
+(* Choose, one per (expectation key, family, sub-case)) is the configuration space the       *)
+(* driver instantiates and the list of expectations it executes against the real            *)
+(* generators (G).                                                                          *)
 EXTENDS TestCasesOps, TLC
 
 Profiles == {"hq", "ld"}
